@@ -223,7 +223,7 @@ func decodeHeapMap(in *bytes.ByteBuffer, length uint16) map[string]string {
 
 		valueLength := bytes.ReadUInt16(in)
 		if valueLength == 0 {
-			key = ""
+			value = ""
 		} else {
 			valueBytes := make([]byte, valueLength)
 			in.Read(valueBytes)
